@@ -75,6 +75,9 @@ func (f *Mod) Call(s *slip.Scope, args slip.List, depth int) (result slip.Object
 			_ = z.Add(&z, div)
 		}
 		result = (*slip.Bignum)(&z)
+	case *slip.Ratio:
+		// Exact, the second value of floor.
+		result = floor(s, f, args, depth)[1]
 	case slip.Real:
 		div := (d.(slip.Real)).RealValue()
 		if div == 0.0 {
